@@ -199,6 +199,8 @@ def hygiene(scope: Sequence[Path] | None = None) -> list[str]:
     bad = []
     files = sorted(p for p in COQ.rglob("*.v") if not p.name.startswith("_")) if scope is None else list(scope)
     for f in files:
+        if not f.exists():      # a Gen table whose translator failed closed: the build reports it
+            continue
         txt = f.read_text()
         # strip comments (innermost first, repeated for nesting)
         prev = None
@@ -263,7 +265,37 @@ def make(targets: Sequence[str] = (), timeout: int = 1500) -> subprocess.Complet
         return sh(["timeout", str(timeout)] + cmd, cwd=COQ, timeout=timeout + 30)
 
 
+class _CoqSlot:
+    """Machine-wide cap on concurrently running case-file coqc processes (each needs 0.3-1 GB): several
+    checks, drills and agents may run at once.  Pure throttling: lock files are created on demand."""
+    DIR = Path(os.environ.get("VERIF_SLOT_DIR", "/tmp/annet-verif-coqc-slots"))
+    N = int(os.environ.get("VERIF_COQC_SLOTS", "20"))
+
+    def __enter__(self):
+        self.DIR.mkdir(parents=True, exist_ok=True)
+        k = os.getpid()
+        while True:
+            for i in range(self.N):
+                f = open(self.DIR / f"slot-{(k + i) % self.N}", "w")
+                try:
+                    fcntl.flock(f, fcntl.LOCK_EX | fcntl.LOCK_NB)
+                    self.f = f
+                    return self
+                except OSError:
+                    f.close()
+            time.sleep(0.2)
+
+    def __exit__(self, *a):
+        fcntl.flock(self.f, fcntl.LOCK_UN)
+        self.f.close()
+
+
 def coqc_file(path: Path, timeout: int = 600) -> subprocess.CompletedProcess:
+    with _CoqSlot():
+        return _coqc_file(path, timeout)
+
+
+def _coqc_file(path: Path, timeout: int = 600) -> subprocess.CompletedProcess:
     return sh(["timeout", str(timeout), "coqc", "-Q", str(COQ), "Annet", "-w",
                "-notation-overridden,-deprecated", str(path)], cwd=path.parent, timeout=timeout + 30)
 
